@@ -7,6 +7,7 @@ import (
 	"io"
 	"os"
 	"path/filepath"
+	"sort"
 	"strings"
 	"testing"
 	"testing/synctest"
@@ -394,6 +395,7 @@ func (s *Sim) addBlock(gseed uint64, maxGroups int, viaAddBlock bool) {
 	sh := crypto.Hash([]byte(fmt.Sprintf("seed-%d", s.latest+1)))
 	copy(seed[:], sh[:])
 	blk := ub.FinishBlock(seed, prp, true)
+	canonicaliseParticipationUpdates(&blk)
 	if pblk != nil {
 		blk = *pblk
 	}
@@ -442,6 +444,27 @@ func (s *Sim) submitGroup(ev *eval.BlockEvaluator, hdr *bookkeeping.BlockHeader,
 		return "eval", err
 	}
 	return "", nil
+}
+
+// canonicaliseParticipationUpdates sorts the expired/absent account lists of a freshly generated block.
+// The evaluator fills them by ranging over a Go map (eval.generateKnockOfflineAccountsList), so their
+// order - and with it the block hash - is runtime-random when two accounts expire in the same round.
+// Validation checks membership, not order; a proposer is free to pick any order, so the simulator picks
+// the sorted one (one forgotten source of nondeterminism the determinism self-test found).
+func canonicaliseParticipationUpdates(blk *bookkeeping.Block) {
+	less := func(l []basics.Address) func(i, j int) bool {
+		return func(i, j int) bool { return bytes.Compare(l[i][:], l[j][:]) < 0 }
+	}
+	if l := blk.ExpiredParticipationAccounts; len(l) > 1 {
+		l = append([]basics.Address(nil), l...)
+		sort.Slice(l, less(l))
+		blk.ExpiredParticipationAccounts = l
+	}
+	if l := blk.AbsentParticipationAccounts; len(l) > 1 {
+		l = append([]basics.Address(nil), l...)
+		sort.Slice(l, less(l))
+		blk.AbsentParticipationAccounts = l
+	}
 }
 
 func classify(err error) string {
